@@ -532,7 +532,7 @@ def comsg(o):
     return "None" if o is None else "(Some %s)" % cmsg(o)
 
 
-COQ_HEAD = C.COQ_CASE_HEADER + ("From Raven Require Import Base.GoStrMime Spec.Mime Model.MimeHeaders Model.MimeStore Spec.MimeCheck.\n"
+COQ_HEAD = C.COQ_CASE_HEADER + ("From Raven Require Import Base.GoStrMime Spec.Mime Model.MimeHeaders Model.MimeStore Spec.MimeCheck Proof.MimeRoundtrip.\n"
                                 "Local Open Scope nat_scope.\nLocal Open Scope list_scope.\n")
 
 
@@ -668,6 +668,7 @@ def coq_eval(worlds):
         body += "Definition pred%d := Eval vm_compute in false_positions 0 (zip_with omsg_eqb (results ms%d) os%d).\nPrint pred%d.\n" % (w, w, w, w)
         body += "Definition spec%d := Eval vm_compute in false_positions 0 (zip_with spec_ok ms%d os%d).\nPrint spec%d.\n" % (w, w, w, w)
         body += "Definition mspec%d := Eval vm_compute in false_positions 0 (zip_with spec_ok ms%d (results ms%d)).\nPrint mspec%d.\n" % (w, w, w, w)
+        body += "Definition wf%d := Eval vm_compute in false_positions 0 (map wf_msg ms%d).\nPrint wf%d.\n" % (w, w, w)
         # cross-checks: serialisation twin, decoders, extractAllHeaders (string level)
         rawpos = [k for k, it in enumerate(items) if it.get("raw") is not None]
         body += "Definition raws%d : list str := [\n%s].\n" % (w, ";\n".join(cstr(items[k]["raw"]) for k in rawpos))
@@ -698,7 +699,7 @@ def coq_eval(worlds):
         return [int(x) for x in txt.strip("[]").replace("%nat", "").split(";") if x.strip()]
     out = []
     for w, items in enumerate(worlds):
-        d = {k: nums("%s%d" % (k, w)) for k in ("pred", "spec", "mspec", "ser", "dec", "eah")}
+        d = {k: nums("%s%d" % (k, w)) for k in ("pred", "spec", "mspec", "ser", "dec", "eah", "wf")}
         if any(v is None for v in d.values()):
             return None, log
         d["cls"] = [None] * len(items)
@@ -872,8 +873,12 @@ def judge(chk, sc, ev):
                         tag, d["via"], d["submitted"][:160], (d.get("f1") or b"")[:200]), payload)
             elif pos in e["pred"]:
                 mismatches.append((wi, pos, "pred"))
-            if pos in e["mspec"] and cls is None:
-                chk.broken_obligation("model violates msg_equiv on a message with classify = None (theorem c02_roundtrip would be false): %r" % d["submitted"][:200], payload)
+            if pos in e["wf"]:
+                cov["outside_wf_msg"] = cov.get("outside_wf_msg", 0) + 1
+                if not it["msg"].get("_malformed") and not msgs[it["idx"]].get("_malformed"):
+                    chk.notes.append("a generated message does not satisfy wf_msg (hypothesis of c02_roundtrip): %r" % d["submitted"][:120])
+            elif pos in e["mspec"]:
+                chk.broken_obligation("model violates msg_equiv on a well-formed message (contradicts c02_roundtrip: harness encoding error): %r" % d["submitted"][:200], payload)
             # repeated fetch
             f1, f2 = d.get("f1"), d.get("f2")
             cov["traces_validated_against_impl"] += 1
